@@ -374,7 +374,7 @@ theorem walkTables_fileInfo (ts : List PTable) (s : FileInfo) :
         = { s with strings := amInsertOpt t.lang t.entries s.strings, lang := lang } := by
       simp only [walkTable, PTable.lang]
       cases hl : Language.parse t.node.key.ws with
-      | none => exact ⟨s.lang, by simp [fileInfoVisitor, hl]⟩
+      | none => exact ⟨s.lang, by simp [fileInfoVisitor, hl, amInsertOpt]⟩
       | some lg =>
         refine ⟨lg, ?_⟩
         simp only [fileInfoVisitor, hl, Visitor.default]
@@ -650,7 +650,7 @@ theorem filter_le_one_of_nodup {α β} [DecidableEq β] (f : α → Option β) (
 theorem entries_lookup (t : PTable) (key : Str) :
     amLookup key t.entries = ((t.kvs.filter fun kv => lossy kv.1.ws = key).getLast?).map (fun kv => lossy kv.2.ws) := by
   have := amLookup_foldl_insert (fun kv : Sl × Sl => some (lossy kv.1.ws)) (fun kv => lossy kv.2.ws) key t.kvs []
-  simp only [amLookup, amInsertOpt] at this
+  simp only [amLookup, amInsertOpt, Option.some.injEq] at this
   unfold PTable.entries
   rw [this]
   cases (List.filter (fun x => decide (lossy x.fst.ws = key)) t.kvs).getLast? <;> rfl
